@@ -126,6 +126,21 @@ Definition login (c : tcfg) (env : login_env) (s : sess) (clk : clock) (sec : se
     end
   end.
 
+(* ---- temporary tokens the server issues by itself and hands to a credential validator ---- *)
+
+Definition level_none : Z := 0.    (* auth.LevelNone *)
+Definition level_auth : Z := 20.   (* auth.LevelAuth *)
+Definition tmp_token_lifetime : Z := 24 * 3600 * second.     (* time.Hour * 24 *)
+
+(* replyUpdateUser (user.go:286-291) and Topic.replySetCred (topic.go:2921-2926) *)
+Definition update_cred_rec (uid : N) : grec := mkG uid level_none feature_nologin tmp_token_lifetime.
+(* replyCreateUser (user.go:178-182): no Features *)
+Definition create_cred_rec (uid : N) : grec := mkG uid level_auth 0 tmp_token_lifetime.
+
+(* store.Store.GetLogicalAuthHandler("token").GenSecret(rec), errors dropped *)
+Definition tmp_token (c : tcfg) (now : Z) (rec : grec) : option (list N * Z) :=
+  gen_secret mac (tc_key c) (tc_serial c) (tc_lifetime c) now rec.
+
 End Relogin.
 
 (* ---------------- what the theorems and the monitors read ---------------- *)
